@@ -221,7 +221,7 @@ pub fn abs_key(cx: Option<&Cx>, k: salsa::DatabaseKeyIndex) -> String {
         format!("?node{}", idstr(id))
     };
     match name.as_str() {
-        "q1" | "q1_noeq" | "q1_lru" | "c_fix" | "c_fixjoin" | "c_fb" => node_key(id),
+        "q1" | "q1_noeq" | "q1_lru" | "c_fix" | "c_fixjoin" | "c_fb" | "qmany" => node_key(id),
         "q0" => {
             // singleton key: the abstract index is the (unique) fn of kind q0
             if let Some(cx) = cx {
@@ -460,6 +460,25 @@ pub fn q2(db: &dyn Db, n: FNode, tag: u8) -> Val {
     let _ = tag;
     run_node(db, n)
 }
+/// Creates `MANY` tracked structs (identities 0..MANY) in one execution (C24: page boundaries).
+pub const MANY: i64 = 150;
+#[salsa::tracked(returns(ref))]
+pub fn qmany(db: &dyn Db, n: FNode) -> Val {
+    let j = node_index(db, n.as_id());
+    let key = format!("f{j}");
+    ev!("e": "bs", "k": key, "kj": j, "km": 0, "ki": "");
+    let mut ids = vec![];
+    for i in 0..MANY {
+        let t = T::new(db, Kv(i), Val::new(i % 7, vec![]), Val::new(j as i64, vec![]));
+        let id = t.as_id();
+        evk!(key, "e": "new", "id": idstr(id), "ix": id.index(), "gn": id.generation(), "ident": i, "x": i % 7, "y": j, "pos": ids.len() + 1, "xs": 0, "ys": 0);
+        ids.push(id);
+    }
+    let v = Val::new(0, ids);
+    evk!(key, "e": "be", "v": 0, "hs": Vec::<String>::new(), "is": Vec::<String>::new(), "s": v.serial);
+    v
+}
+
 #[salsa::tracked(returns(ref), cycle_fn = fix_recover, cycle_initial = fix_initial)]
 pub fn c_fix(db: &dyn Db, n: FNode) -> Val {
     run_node(db, n)
@@ -565,6 +584,7 @@ pub fn call_fn<'db>(db: &'db dyn Db, j: usize) -> &'db Val {
             let tag = (j % 3) as u8;
             q2(db, n, tag)
         }
+        "many" => qmany(db, n),
         "fix" => c_fix(db, n),
         "fixjoin" => c_fixjoin(db, n),
         "fb" => c_fb(db, n),
@@ -833,6 +853,28 @@ pub fn set_input(db: &mut VDb, i: usize, f: i64, v: i64, d: i64) {
         (_, d) => {
             inp.set_b(db).with_durability(dur(d)).to(v);
         }
+    }
+}
+
+/// C24: create `count` inputs through `&db` (possible on clones, concurrently), read every one back.
+pub fn make_inputs(db: &VDb, count: i64, tag: i64) {
+    for i in 0..count {
+        let inp = In::new(db, i, tag);
+        let id = inp.as_id();
+        ev!("e": "newin", "id": idstr(id), "ix": id.index(), "gn": id.generation(), "a": i, "b": tag);
+        crate::log::jitter();
+        ev!("e": "rdin", "id": idstr(id), "a": inp.a(db), "b": inp.b(db));
+    }
+}
+
+/// C24 / C08: intern `count` immortal values outside of any query, read every one back.
+pub fn make_interned(db: &VDb, count: i64, base: i64) {
+    for i in 0..count {
+        let v = base + i;
+        let id = do_intern(db, 4, v);
+        ev!("e": "tintern", "kind": 4, "v": v, "id": idstr(id), "ix": id.index(), "gn": id.generation());
+        crate::log::jitter();
+        ev!("e": "trdint", "kind": 4, "id": idstr(id), "v": read_interned(db, 4, id));
     }
 }
 
